@@ -440,8 +440,9 @@ func (g *gen) assign() string {
 		g.f("lambda")
 		v := g.fresh("s")
 		fnv := g.fresh("fn")
+		arg := g.atom()
 		g.strs = append(g.strs, v)
-		return fnv + " = lambda x: x + " + g.plainLit() + "\n" + v + " = " + fnv + "(" + g.atom() + ")"
+		return fnv + " = lambda x: x + " + g.plainLit() + "\n" + v + " = " + fnv + "(" + arg + ")"
 	}
 	v := g.fresh("s")
 	g.strs = append(g.strs, v)
@@ -486,6 +487,14 @@ func (g *gen) subRun() string {
 				if g.subSeen || g.emptySub {
 					g.f("sub_fstring_defs_name")
 					args = append(args, `f"//{DEFS_PKG}:`+l[7:]+`"`)
+				} else {
+					args = append(args, `"`+l+`"`)
+				}
+			case 7:
+				// a computed label over a name that a defs file defines: must never be merged into an earlier call
+				if g.subSeen || g.emptySub {
+					g.f("sub_nonliteral_defs_name")
+					args = append(args, `"//" + DEFS_PKG + ":`+l[7:]+`"`)
 				} else {
 					args = append(args, `"`+l+`"`)
 				}
